@@ -53,7 +53,13 @@ fn ctrl_call(sig: &str, args: Vec<u8>) -> Vec<u8> {
 }
 
 /// tickers: (spelling variants that must all mean the same token, independent model key)
-const TICKS: [(&[&str], &str); 7] = [
+const TICKS: [(&[&str], &str); 12] = [
+    // near-misses of "ordi" that are *different* tickers (whitespace, prefix, combining mark, dotless i)
+    (&["ordi ", "ORDI "], "ordi "),
+    (&[" ordi"], " ordi"),
+    (&["ordin", "ORDIN"], "ordin"),
+    (&["ORD\u{130}"], "ordi\u{307}"),
+    (&["ord\u{131}"], "ord\u{131}"),
     (&["ordi", "ORDI", "OrDi", "oRDI"], "ordi"),
     (&["sats", "SATS"], "sats"),
     (&["x1z9", "X1Z9"], "x1z9"),
@@ -111,7 +117,8 @@ fn sender() -> impl Strategy<Value = Who> {
     prop_oneof![6 => (0u8..5).prop_map(Who::Pk), 2 => (0u8..2).prop_map(Who::Signer), 2 => Just(Who::Proxy)]
 }
 fn tick() -> impl Strategy<Value = u8> {
-    prop_oneof![5 => Just(0u8), 2 => Just(1u8), 1 => 2u8..7]
+    // index 5 = "ordi" (the main ticker); 0..5 are its near-misses
+    prop_oneof![5 => Just(5u8), 2 => Just(6u8), 2 => 0u8..5, 1 => 7u8..12]
 }
 
 fn lop() -> impl Strategy<Value = LOp> {
